@@ -158,7 +158,7 @@ def _each_transition(spec, what):
     changed = False
     for _, s in _states(spec["root"]):
         for fam, key, i, t in state_transitions(s):
-            if what == "guard" and t.get("guard") is not None:
+            if what == "guard" and t.get("guard") is not None and fam != "always":
                 t["guard"] = None
                 changed = True
             elif what == "actions" and len(t.get("actions") or []) > 1:
@@ -173,6 +173,8 @@ def _each_transition(spec, what):
 def _iter_transitions(spec):
     for p, s in _states(spec["root"]):
         for fam, key, i, t in state_transitions(s):
+            if fam == "always":
+                continue  # an unguarded `always` is an endless loop, never a simplification
             yield p, t
 
 
